@@ -79,6 +79,54 @@ type c13Case struct {
 	Mems  int         `json:"mems"`
 	Path  []c13Attach `json:"path"`
 	Probe string      `json:"probe,omitempty"`
+	// Touch: the last Attach of Path is made on a LIVE bus -- the address TouchAddr was read (written) just
+	// before it, and is the first address accessed after it
+	Touch      bool   `json:"touch,omitempty"`
+	TouchAddr  uint32 `json:"touch_addr,omitempty"`
+	TouchWrite bool   `json:"touch_write,omitempty"`
+}
+
+// c13TouchRun: banks are switched while the machine runs. Path minus its last Attach is replayed on a fresh
+// bus, TouchAddr is accessed, the last Attach is made, and the very next access -- at TouchAddr again, then
+// a write there -- must go to the memory now attached over it (whatever the bus remembers about its last
+// access must not outlive the Attach).
+func c13TouchRun(c c13Case) (sig, what string) {
+	n := len(c.Path)
+	if n == 0 {
+		return "", ""
+	}
+	pre := c
+	pre.Path = c.Path[:n-1]
+	w, m, err := c13Replay(pre)
+	if err != nil {
+		return "", ""
+	}
+	if c.TouchWrite {
+		c13SafeWrite(w, c.TouchAddr, 0x5A)
+	} else {
+		c13SafeRead(w, c.TouchAddr)
+	}
+	t := c.Path[n-1]
+	aerr := w.b.Attach(w.mems[t.Mem-1], "m", t.Start, t.End)
+	if ok := m.attach(t); ok != (aerr == nil) {
+		return "unexplained:attach-result", fmt.Sprintf("attach %+v on a live bus: error=%v, model accepts=%v", t, aerr, ok)
+	}
+	own := m.owner(c.TouchAddr)
+	if own == 0 {
+		return "", ""
+	}
+	kind := map[bool]string{false: "read", true: "written"}[c.TouchWrite]
+	w.log = w.log[:0]
+	v, p := c13SafeRead(w, c.TouchAddr)
+	if p || len(w.log) != 1 || w.log[0] != (c13Access{own, c.TouchAddr, false, 0}) || v != c13Val(own, c.TouchAddr) {
+		return "unexplained:routing-after-access-then-attach", fmt.Sprintf("after %+v, $%06x was %s, then %+v was attached: the next read of $%06x went to %v (panic %v, value $%02x), want memory %d", pre.Path, c.TouchAddr, kind, t, c.TouchAddr, w.log, p, v, own)
+	}
+	w.log = w.log[:0]
+	p = c13SafeWrite(w, c.TouchAddr, 0xA7)
+	if p || len(w.log) != 1 || w.log[0] != (c13Access{own, c.TouchAddr, true, 0xA7}) {
+		return "unexplained:routing-after-access-then-attach", fmt.Sprintf("after %+v, $%06x was %s, then %+v was attached: the next write to $%06x went to %v (panic %v), want memory %d", pre.Path, c.TouchAddr, kind, t, c.TouchAddr, w.log, p, own)
+	}
+	return "", ""
 }
 
 // world = a fresh real bus + instrumented memories
@@ -613,6 +661,14 @@ func c13ManyRun(n int) (sig, what string) {
 }
 
 func replayC13(raw json.RawMessage) (string, error) {
+	var tc c13Case
+	if json.Unmarshal(raw, &tc) == nil && tc.Touch {
+		sig, what := c13TouchRun(tc)
+		if sig == "" {
+			return "the first access after the Attach goes to the memory attached last", nil
+		}
+		return what, fmt.Errorf("%s", sig)
+	}
 	var fk c13ForkCase
 	if json.Unmarshal(raw, &fk) == nil && fk.Fork {
 		sig, what := c13ForkRun()
@@ -634,6 +690,14 @@ func replayC13(raw json.RawMessage) (string, error) {
 		sig, what := c13RealRun(rc)
 		if sig == "" {
 			return "routing to the library's RAM/ROM objects agrees with the owner map", nil
+		}
+		return what, fmt.Errorf("%s", sig)
+	}
+	var oc c13AltOddCase
+	if json.Unmarshal(raw, &oc) == nil && oc.OddEnd != 0 {
+		sig, what := c13AltOddRun(oc)
+		if sig == "" {
+			return "every address inside the range reaches the reader/writer attached over it", nil
 		}
 		return what, fmt.Errorf("%s", sig)
 	}
@@ -686,7 +750,7 @@ func runC13(r *report.Run) {
 	if thorough {
 		bases = []uint32{0x000000, 0x000010, 0x00FFE0 - 16, 0xFFFFB0, 0x7FFFE0 - 16, 0x123450}
 	}
-	var states, transitions, evals int64
+	var states, transitions, evals, touches int64
 	for _, base := range bases {
 		win := c13Window(base, segs)
 		good, bad := c13Transitions(win, base, segs, nm)
@@ -761,6 +825,32 @@ func runC13(r *report.Run) {
 						r.Violation("unexplained:attach-result", err.Error(), c)
 						continue
 					}
+					// the same transition on a live bus (a fresh 16 MiB bus per case, hence the economy): from the
+					// initial state and the states one Attach away, every cell of the window is accessed just before
+					// the Attach (last byte read, first byte written); from deeper states the last and the first cell
+					// of the attached range, alternately
+					type touch struct {
+						a uint32
+						w bool
+					}
+					var ts []touch
+					if len(path) <= 1 {
+						for a := win.lo; a <= win.hi && a >= win.lo; a += 16 {
+							ts = append(ts, touch{a + 15, false}, touch{a, true})
+						}
+					} else if (len(path)+int(t.Start>>4))%2 == 0 {
+						ts = []touch{{t.End, false}}
+					} else {
+						ts = []touch{{t.Start, true}}
+					}
+					for _, x := range ts {
+						tc := c
+						tc.Touch, tc.TouchAddr, tc.TouchWrite = true, x.a, x.w
+						atomic.AddInt64(&touches, 1)
+						if sig, what := c13TouchRun(tc); sig != "" {
+							r.ViolationSized(sig, what, tc, len(tc.Path))
+						}
+					}
 					obs := c13Observe(w, win)
 					if obs != m.key() {
 						r.Violation("unexplained:routing", fmt.Sprintf("after %+v routing (memory id per 16-byte segment from $%06x) is %s, model says %s", c.Path, win.lo, obs, m.key()), c)
@@ -829,12 +919,21 @@ func runC13(r *report.Run) {
 		altSegs = 4
 	}
 	as, at, ae := runC13Alt(r, altSegs, []uint32{0x000000, 0x00FFE0, 0xFFFFD0 - uint32(altSegs-3)*16})
+	odd := c13AltOddCases()
+	par.For(len(odd), func(_, i int) {
+		if sig, what := c13AltOddRun(odd[i]); sig != "" {
+			r.Violation(sig, what, odd[i])
+		}
+	})
+	at += int64(len(odd))
+	r.Set("alt_bus_unaligned_ranges", len(odd))
 	states, transitions, evals = states+as, transitions+at, evals+ae
 	r.Set("cpualt_bus_states", as)
 	r.Set("cpualt_bus_transitions", at)
 	r.Set("large_range_sequences", int64(len(big)))
 	r.Set("states", states)
-	r.Set("transitions", transitions)
+	r.Set("transitions", transitions+touches)
+	r.Set("attaches_on_a_live_bus", touches)
 	r.Set("traces_validated_against_impl", transitions)
 	r.Set("evaluations", evals)
 	r.Set("distinct_nontrivial", states)
